@@ -791,7 +791,7 @@ class Installed:
         self.saved = []
 
     def __enter__(self):
-        for ns, name, val in self.patches:
+        for ns, name, val in [p[:3] for p in self.patches]:
             if isinstance(ns, dict):
                 self.saved.append((ns, name, ns.get(name, _MISSING)))
                 ns[name] = val
